@@ -360,3 +360,44 @@ def save_registry(basedir, data, rec=None):
 def load_registry(basedir):
     from foolscap.appserver.server import load_service_data
     return load_service_data(basedir)
+
+
+# ---------------------------------------------------------------------------
+# misc helpers
+
+import contextlib
+
+
+@contextlib.contextmanager
+def quiet_logs():
+    """nothing of what the drivers provoke (unhandled-error logs of failed Deferreds) belongs on the check's stdout"""
+    from twisted.python import log as twlog
+    obs = list(twlog.theLogPublisher.observers)
+    for o in obs:
+        twlog.removeObserver(o)
+    try:
+        yield
+    finally:
+        for o in obs:
+            twlog.addObserver(o)
+
+
+def wipe():
+    if os.path.lexists(ROOT):
+        shutil.rmtree(ROOT, ignore_errors=True)
+
+
+def source_error(kind):
+    if kind == "disconnect":
+        from foolscap.ipb import DeadReferenceError
+        return DeadReferenceError("connection was lost")
+    return ValueError("source failed")
+
+
+def write_incident(fn, msg, compress=False):
+    from foolscap.logging import flogfile
+    f = bz2.BZ2File(fn, "w") if compress else open(fn, "wb")
+    f.write(flogfile.MAGIC)
+    flogfile.serialize_raw_header(f, {"type": "incident", "trigger": {"message": msg, "num": 1, "level": 30}})
+    flogfile.serialize_wrapper(f, {"num": 1, "message": msg, "level": 30, "time": 1.0}, from_="tubid", rx_time=2.0)
+    f.close()
